@@ -13,7 +13,7 @@ import matplotlib.pyplot as plt
 from matplotlib.patches import PathPatch, Arc, Rectangle
 from matplotlib.collections import PolyCollection, LineCollection, EllipseCollection
 
-from ..core import Law
+from ..core import Law, Violation
 from .. import gen
 from ..gen import fl
 from ..oracles import hyp as H
@@ -116,9 +116,39 @@ def make_drawing(cls, figspec, **kw):
             dfig = plt.figure(figsize=(1, 1))
             box["decoy_ax"] = dfig.add_subplot()
         d._vt = box
+        # transformation objects the caller hands to the drawing stay the caller's: what the
+        # drawing does to its own transform later must not show in them
+        box["given"] = []
+        if kw.get("transform") is not None:
+            remember(d, kw["transform"])
+        if kw.get("xlim") is not None:
+            # the lines that stand for infinity (where the straight pieces towards ideal or
+            # far-away points end) belong to the window that is drawn
+            f = drawtools.OFFSCREEN_FACTOR
+            (x0, x1), (y0, y1) = kw["xlim"], kw["ylim"]
+            want = dict(left_infinity=x0 - f * (x1 - x0), right_infinity=x1 + f * (x1 - x0),
+                        up_infinity=y1 + f * (y1 - y0), down_infinity=y0 - f * (y1 - y0))
+            got = {k: float(getattr(d, k)) for k in want}
+            if any(abs(got[k] - want[k]) > 1e-9 for k in want) or \
+                    tuple(d.ax.get_xlim()) != tuple(kw["xlim"]):
+                raise Violation("the drawing's lines at infinity are not those of the window "
+                                "it was given", {"got": got, "want": want,
+                                                 "xlim": list(d.ax.get_xlim())})
         yield d
     finally:
         plt.close("all")
+
+
+def remember(d, T):
+    d._vt["given"].append((T, np.array(T.matrix, copy=True)))
+
+
+def given_unchanged(d, after):
+    for (T, M0) in d._vt["given"]:
+        if not np.array_equal(np.array(T.matrix), M0):
+            raise Violation("a transformation handed to the drawing was changed by the drawing "
+                            "(%s)" % after, {"before": M0.tolist(),
+                                             "after": np.array(T.matrix).tolist()})
 
 
 def hyp_drawing(case, model, init=None):
@@ -126,6 +156,9 @@ def hyp_drawing(case, model, init=None):
     kw = dict(model=al[case["fig"].get("alias", 0) % len(al)])
     if init is not None:
         kw["transform"] = hyperbolic.Isometry(np.array(init, dtype=float))
+    if model == "halfspace" and case["fig"].get("size", 1) in (2, 3):
+        # a window of the caller's choosing (wider than the default one and off centre)
+        kw["xlim"], kw["ylim"] = (-9.0, 21.0), (0.0, 24.0)
     return make_drawing(drawtools.HyperbolicDrawing, case["fig"], **kw)
 
 
@@ -134,12 +167,14 @@ def apply_program(d, prog, wrap):
         if op == "init":
             continue
         T = wrap(np.array(M, dtype=float))
+        remember(d, T)
         if op == "set":
             d.set_transform(T)
         elif op == "add":
             d.add_transform(T)
         elif op == "pre":
             d.precompose_transform(T)
+        given_unchanged(d, op)
 
 
 def init_of(prog):
@@ -189,11 +224,16 @@ def iso_matrix(draw, tmax=1.2):
 
 @st.composite
 def program(draw, mat):
-    k = draw(st.sampled_from([0, 1, 1, 1, 2, 3]))
+    k = draw(st.sampled_from([0, 1, 1, 1, 2, 2, 3]))
     prog = []
     for i in range(k):
         ops = ["init", "set", "add", "pre"] if i == 0 else ["set", "add", "pre"]
         prog.append([draw(st.sampled_from(ops)), draw(mat)])
+    if k >= 2 and draw(st.integers(0, 2)) == 0:
+        # the constructor's transform composed with a later one - the combination in which
+        # the drawing's own transform is the object the caller handed over
+        prog[0][0] = "init"
+        prog[1][0] = draw(st.sampled_from(["pre", "add"]))
     return prog
 
 
